@@ -1,16 +1,18 @@
 #!/bin/sh
 # tools/seedtest.sh <ID> <worktree> <pkgdir> <check ids...> : verify a seeded change and run checks against it
+# (no git stash: the stash is shared between the worktrees of one repository)
 export GOFLAGS=-mod=mod GOPROXY=off GOSUMDB=off GOTOOLCHAIN=local
 id=$1; wt=$2; pkg=$3; shift 3
 cd $wt || exit 2
+git checkout -q -- . ; git apply patch.diff || { echo "patch.diff does not apply"; exit 2; }
 echo "== demo with patch"; timeout 300 go test -vet=off -count=1 -run 'TestDemo' ./$pkg 2>&1 | tail -3
-git stash -q; echo "== demo without patch"; timeout 300 go test -vet=off -count=1 -run 'TestDemo' ./$pkg 2>&1 | tail -2; git stash pop -q
+git apply -R patch.diff; echo "== demo without patch"; timeout 300 go test -vet=off -count=1 -run 'TestDemo' ./$pkg 2>&1 | tail -2; git apply patch.diff
 echo "== existing tests with patch (demo moved aside)"
 demo=$(git status --short | grep '^??' | grep _test.go | awk '{print $2}')
 mkdir -p /tmp/demo_$id; for d in $demo; do mv $d /tmp/demo_$id/; done
-timeout 600 go test -vet=off -count=1 ./$pkg 2>&1 | tail -2
-for d in $demo; do cp /tmp/demo_$id/$(basename $d) $d; done
+timeout 900 go test -vet=off -count=1 ${RUNFILTER:+-run "$RUNFILTER"} ./$pkg 2>&1 | tail -2
+for d in $demo; do cp /tmp/demo_$id/$(basename $d) $d; done; rm -rf /tmp/demo_$id
 echo "== apply to /repo and run checks"
 git -C /repo apply $wt/patch.diff || exit 2
-for c in "$@"; do (cd /verif && ./check $c quick 2>&1 | grep -E "^VIOLATION|^OK|^INCONC|^KNOWN" | cut -c1-260 | head -4); done
+for c in "$@"; do (cd /verif && ./check $c quick > out/seed_$id.$c.log 2>&1; echo "$c rc=$?"; grep -E "^VIOLATION|^OK|^INCONC|^KNOWN" out/seed_$id.$c.log | cut -c1-260 | head -4); done
 git -C /repo checkout -- . ; git -C /repo status --short | head -3
